@@ -274,9 +274,14 @@ func (dr *DatabaseRecovery) loadEmbeddedDatabase() (*database.Database, error) {
 		}
 	}
 
-	return &database.Database{
+	db := &database.Database{
 		Commands: essentialCommands,
-	}, nil
+	}
+	// Build the search index now, as the file loaders do: SearchUniversal would
+	// otherwise build it lazily inside the first search, which is a data race
+	// when the first searches run concurrently.
+	db.BuildUniversalIndex()
+	return db, nil
 }
 
 // loadBackupDatabase attempts to load from a backup file
@@ -324,9 +329,11 @@ func (dr *DatabaseRecovery) createMinimalDatabase() (*database.Database, error) 
 		}
 	}
 
-	return &database.Database{
+	db := &database.Database{
 		Commands: minimalCommands,
-	}, nil
+	}
+	db.BuildUniversalIndex() // see loadEmbeddedDatabase
+	return db, nil
 }
 
 // SearchRecovery handles search operation failures with graceful degradation
